@@ -53,7 +53,7 @@ def task_mirvc(ctx, module):
     mod = importlib.import_module(module)
     obligations = []
     violations = []
-    for spec in mod.SPECS:
+    for spec in (mod.build(funcs) if hasattr(mod, 'build') else mod.SPECS):
         r = vc.verify_function(funcs, spec, seed=ctx.seed)
         for o in r.obligations:
             obligations.append(dict(id='mirvc/' + o['id'], status=o['status'], detail=o['detail'], seconds=o['seconds'],
@@ -126,6 +126,33 @@ def task_gsearch(ctx, arg):
     for k, n in sorted(stats.items()):
         op = k.split('::')[-1]
         searches.append(dict(name='gsearch/' + k, cases=n, seconds=round(time.time() - t, 2), props=PROP.get(op if op != 'add_ref' else 'add', ['C04'])))
+    return dict(violations=violations, searches=searches)
+
+def limb_props(fid):
+    f = fid.split('::')[-1]
+    if fid.startswith('lib::fq2') or fid == 'lib::fq_is_even':
+        return ['C12', 'C10']
+    if fid.startswith('fq2::') or 'sum_of_products' in fid:
+        return ['C12', 'C14'] if 'sqrt' in fid else ['C12']
+    if 'sqrt' in fid:
+        return ['C14']
+    if fid.startswith('lib::') or fid.startswith('u512::') or f in ('new', 'new_mul_factor', 'from_slice', 'to_slice', 'interpret', 'from_str', 'from_hash',
+                                                                     'to_big_endian', 'set_bit', 'get_bit', 'into_u256', 'bits', 'bits_without_leading_zeros'):
+        return ['C13', 'C07']
+    return ['C06', 'C07']
+
+def task_lsearch(ctx, arg):
+    """limb / prime-field / conversion search on the real code against exact integer arithmetic"""
+    import search_limbs
+    drv = get_driver()
+    t = time.time()
+    stats, viols = search_limbs.search(drv, ctx.seed, ctx.tier)
+    violations = []
+    for v in viols:
+        violations.append(dict(obligation='limbs/' + v['fid'], props=limb_props(v['fid']), summary='%s(%s...) expected %s observed %s' % (
+            v['hook'], ','.join(a[:16] for a in v['args'][:4]), str(v['expected'])[:48], str(v['observed'])[:48]),
+            replay=dict(kind='hook', **v), input_class=v['failure']))
+    searches = [dict(name='lsearch/' + k, cases=n, seconds=round(time.time() - t, 2), props=limb_props(k)) for k, n in sorted(stats.items())]
     return dict(violations=violations, searches=searches)
 
 # ---------------------------------------------------------------------------------------------
